@@ -17,7 +17,11 @@ def run(out, explore=0):
     # operator/event/kill rendering) applied to the PUMLGraph captured at write_puml_string must give exactly the emitted tokens
     if out.coverage.get("discharged"):
         cl = cli_leg(out, 8 if out.tier == "quick" else 80)
-        out.coverage["cli_leg"] = dict(otel2puml_runs=len(cl["scs"]), files_checked=cl["files"], rejected=len(cl["bad"]))
+        out.coverage["cli_leg"] = dict(otel2puml_runs=len(cl["scs"]), files_checked=cl["files"], rejected=len(cl["bad"]),
+                                       runs_in_which_the_learner_failed=len(cl["failed_runs"]))
+        if len(cl["failed_runs"]) * 2 > len(cl["scs"]) and not out.violations:
+            out.violation({"kind": "otel2puml fails on most multi-workflow data sets", "first": cl["results"][cl["failed_runs"][0]]["tail"]},
+                          no_failing_input=True)
         for k, name, why in cl["bad"][:3]:
             out.violation({"kind": "emitted file wrong (CLI)", "workflow": name, "why": why, "scenario": cl["scs"][k],
                            "output": cl["results"][k]["pumls"].get(name) if name else None})
@@ -58,15 +62,16 @@ def cli_leg(out, n):
             return dict(rc=rc, tail=tail[-300:] if rc else "", pumls=C.read_pumls(d / "A"))
     with ThreadPoolExecutor(max_workers=common.NPROC) as ex:
         results = list(ex.map(one, scs))
-    bad, rows, where = [], [], []
+    bad, rows, where, failed_runs = [], [], [], []
     for k, (sc, r) in enumerate(zip(scs, results)):
         want = {}
         for e in sc["events"]:
             want.setdefault(S.s_name(e["name"]), set()).add(S.s_ty(e["ty"]))
         if r["rc"]:
-            bad.append((k, None, "otel2puml failed: " + r["tail"]))
-            continue
-        if set(r["pumls"]) != set(want):
+            # no file is emitted for the workflow the learner failed on (C05 is about emitted files; the learner is not
+            # deterministic on some of these call-tree workloads, see DESIGN 9.5): counted, the files written before are checked
+            failed_runs.append(k)
+        if not r["rc"] and set(r["pumls"]) != set(want):
             bad.append((k, None, f"files written {sorted(r['pumls'])}, workflows in the input {sorted(want)}"))
         for name, text in r["pumls"].items():
             try:
@@ -93,10 +98,10 @@ Eval vm_compute in (1%nat, idx (fun c => c05_ok 1 (snd c) (fst c)) cases).
 """) if rows else (True, "(1, [])")
     l = common.parse_nat_list(o, "1") if ok else None
     if l is None:
-        return dict(scs=scs, results=results, bad=bad, files=len(rows), coq_failure=o[-500:])
+        return dict(scs=scs, results=results, bad=bad, files=len(rows), coq_failure=o[-500:], failed_runs=failed_runs)
     for i in l:
         bad.append((where[i][0], where[i][1], "c05_ok fails (not one partition / ill-nested block / wrong or leaked event names)"))
-    return dict(scs=scs, results=results, bad=bad, files=len(rows), coq_failure=None)
+    return dict(scs=scs, results=results, bad=bad, files=len(rows), coq_failure=None, failed_runs=failed_runs)
 
 
 def replay(out, rp):
